@@ -165,6 +165,13 @@ def selftest(sc, topo, behs, c, checked):
                 target = i
     if target is None:
         return {"done": False}
+    # the self-test needs a trace the monitor accepts: if the code under test already deviates on these behaviours the
+    # main run reports that (a violation takes precedence; a failing self-test on a rejected trace says nothing)
+    cfg0 = cfg_text("TraceSpec", dict(c, Checked=set(checked)), invariants=["Final"], postcondition="Done")
+    code0, out0 = run_tlc("CoreTrace.tla", cfg0, timeout=300, workers=1, heap="2g", env={"VERIF_TRACE": tf})
+    bad0 = printed(out0, "BAD")
+    if not tlc_ok(code0, out0) or not bad0 or bad0[0]:
+        return {"done": False, "skipped": "the trace chosen for the self-test is itself rejected by the monitor"}
     e = json.loads(lines[target])
     comp = None
     for k in ("binds", "subs"):
